@@ -748,6 +748,10 @@ def fx_markcount(fx):
                                       only=lambda fid: "markfx::BadMap" in fid)
     mo = parallel.deleted_count_marks(c, fx, "src/lib.rs", "markfx::OkMap", "dead", ".markfx::Ent::link", "L",
                                       only=lambda fid: "markfx::OkMap" in fid)
+    c3 = _ctx()
+    n3 = parallel.companion_built_per_entry(c3, fx, "src/lib.rs", "markfx2::ItMap", "cache", only=lambda fid: "markfx2::" in fid)
+    if n3 != 2 or not _fires(c3, "ItMap::<L>::bad_collect") or _fires(c3, "ItMap::<L>::ok_collect"):
+        return False
     return nb == 1 and no == 1 and mb == 1 and mo == 2 and _fires(c, "BadMap::<L>::bad_build") and _fires(c, "BadMap::<L>::bad_free") \
         and not _fires(c, "markfx::OkMap")
 
